@@ -547,6 +547,9 @@ func (e *Engine) compareInt(p *Path, op token.Token, l, r *Int) Value {
 		if okVec {
 			pr.EqBits, pr.EqC = vec, cst
 		}
+		if l.Lin != nil && r.Lin != nil {
+			pr.EqLin = l.Lin.Sub(r.Lin)
+		}
 		pr.Key = fmt.Sprintf("%s == %s", l.String(), r.String())
 		if pr.Neg {
 			pr.Key = negKey(pr.Key)
